@@ -114,6 +114,11 @@ pub struct NodeSpec {
     pub wall_offset_ms: u64,
     /// drain `events()` every tick (false: never)
     pub drain: bool,
+    /// this node's own disconnect timeout / notify delay (None: the run's)
+    #[serde(default)]
+    pub timeout_ms: Option<u64>,
+    #[serde(default)]
+    pub notify_ms: Option<u64>,
 }
 
 #[derive(Serialize, Deserialize, Clone, Debug, PartialEq)]
